@@ -278,7 +278,9 @@ def gen_labels(rng: random.Random, n: int, kind=None):
     if kind == "range":
         return list(range(n)), kind
     if kind == "range_offset":      # what a row slice of a default-indexed frame carries: a RangeIndex that does not start at 0 / has a step
-        start, step = rng.randint(1, 9), rng.choice([1, 1, 2, 3])
+        start, step = (0 if rng.random() < 0.4 else rng.randint(1, 9)), rng.choice([1, 1, 2, 3])
+        if start == 0 and step == 1:
+            step = 2             # never the identity (what frame.iloc[::2] carries starts at 0)
         return list(range(start, start + n * step, step)), kind
     if kind == "sorted_unique":
         return sorted(rng.sample(range(-20, 60), n)), kind
